@@ -69,7 +69,11 @@ FnOk(o) == /\ o.sp2 \notin FnSp
                                 \/ (o.kind = "view" /\ o.stmt = "select"))
 CONSTANTS KindsUsed, FindsUsed
 Ops(st) ==
-  UNION {(IF st.made[kd] = {} THEN [k : {"make"}, kind : {kd}, sp : SpOf(kd), kw : {"lower", "upper", "mixed"}] ELSE {})
+  \* tables and views share one namespace, and the engine's catalog is case-insensitive: a table and a view whose names differ
+  \* only in letter case cannot both exist there, and the property does not demand that they can (see SameObject above) -
+  \* a behaviour makes a table or a view, not both
+  UNION {(IF st.made[kd] = {} /\ (kd \in {"table", "view"} => st.made["table"] = {} /\ st.made["view"] = {})
+          THEN [k : {"make"}, kind : {kd}, sp : SpOf(kd), kw : {"lower", "upper", "mixed"}] ELSE {})
          \cup (IF FindsUsed THEN {o \in [k : {"find"}, kind : {kd}, sp : SpOf(kd), stmt : Stmts(kd), kw : {"lower", "upper", "mixed"}, sp2 : SpOf(kd)] : FnOk(o)} ELSE {})
          \cup [k : {"names"}, kind : {kd}, ch : Channels(kd)] : kd \in KindsUsed \cap Kinds}
   \cup [k : {"kwcase"}, what : {"create_user", "set_tag"}, name : {"ZED"}, kw : {"lower", "upper", "mixed"}]
